@@ -433,20 +433,17 @@ func (t *tile) modelDecode(c *Ctx, data []byte, strict, resilient bool, pd *t2.P
 
 func suitePackets(c *Ctx) {
 	rng := c.Rng.Fork()
-	n := c.N(900, 20000)
-	cases := make([]pkCase, n)
-	for i := range cases {
+	refs := caseRefs(c, rng, c.N(900, 20000), "t2:packets:rt", "t2:packets:enc", "t2:packets:dec")
+	n := len(refs)
+	ParallelFor(n, c.Work, func(i int) {
 		lim := 120
-		if i%9 == 0 {
+		if refs[i].I%9 == 0 {
 			lim = 700 // larger tiles: oracle only
 		}
-		cases[i] = genPkCase(rng, i, lim)
-	}
-	ParallelFor(n, c.Work, func(i int) {
-		k := cases[i]
+		k := genPkCase(NewRand(refs[i].GSeed), refs[i].I, lim)
 		t := buildTile(k)
 		prog := progNames[k.Prog]
-		in := map[string]interface{}{"case": k}
+		in := map[string]interface{}{"gseed": refs[i].GSeed, "i": refs[i].I, "case": k}
 		dist := []string{"progression=" + prog, fmt.Sprintf("pk.layers.%d", k.NL), fmt.Sprintf("pk.comps.%d", k.NC), fmt.Sprintf("pk.levels.%d", k.Levels),
 			fmt.Sprintf("pk.termall.%v", k.TermAll)}
 		if t.multi {
